@@ -9,5 +9,6 @@ CONSTANTS
   ChunkSizes = {1, 2, 3, 5}
 INVARIANT TypeOK
 INVARIANT OffAtExec
+INVARIANT StdinBlocking
 INVARIANT ChunkIndependent
 CHECK_DEADLOCK TRUE
